@@ -1,4 +1,4 @@
-import DesperProofs.Lemmas.DispTop
+import DesperProofs.Lemmas.DispTerm
 /-
   C04 — Disabled dispatchers defer events and release them once, in order.
 
@@ -81,6 +81,31 @@ theorem C04_release_in_order (U : Universe) (hU : U.WF) (hp : Passive U) (held h
   refine Forall2.imp ?_ f
   intro a b hab
   exact hab
+
+/-- Enabling always terminates (the dispatcher's own loops): with listeners whose callbacks return
+without touching the dispatcher, a fuel of `releaseBound` — one unit per loop iteration, i.e.
+Σ over the queued events of (#listeners + 4), plus 1 — is never exhausted, after any history.
+Callbacks that call back into the dispatcher are the user's program; their termination is the
+fuel hypothesis of the other theorems (every iteration of the release loop still removes the head
+of the queue first, `C04_release_step`). -/
+theorem C04_terminates (U : Universe) (hU : U.WF) (hp : Passive U) (held hints : List Obj)
+    (fuel fuel' : Nat) (ops : List Op)
+    (hf : releaseBound (run U fuel (init held hints) ops) (run U fuel (init held hints) ops).queue + 1 ≤ fuel') :
+    (execOp U fuel' (run U fuel (init held hints) ops) (.enable true)).2 ≠ .outOfFuel := by
+  obtain ⟨_, _, hdy, _, _⟩ := top_state hU held hints fuel ops
+  cases fuel' with
+  | zero => omega
+  | succ f =>
+    simp only [execOp]
+    apply release_passive_fuel hp f { run U fuel (init held hints) ops with enabled := true } hdy rfl
+    have hb : ∀ l, releaseBound { run U fuel (init held hints) ops with enabled := true } l =
+        releaseBound (run U fuel (init held hints) ops) l := by
+      intro l
+      induction l with
+      | nil => rfl
+      | cons a l ih => simp only [releaseBound, ih]; rfl
+    show releaseBound _ (run U fuel (init held hints) ops).queue ≤ f
+    rw [hb]; omega
 
 /-! non-vacuity: two events queued while disabled are released in order -/
 private def exU : Universe :=
